@@ -114,6 +114,78 @@ func (eng *Engine) requestCone() []*ssa.Function {
 			}
 		}
 	}
+	// A handler closure calls what its constructor captured for it: the closures the parent makes and the functions the parent
+	// uses as values (not as callees) are reachable through the handler's free variables although no call edge names them
+	// (loadBasicAuthSession$1 is `getSession` inside loadBasicAuthSession$2). The parent itself stays outside the cone.
+	for changed := true; changed; {
+		changed = false
+		var snapshot []*ssa.Function
+		for f := range in {
+			snapshot = append(snapshot, f)
+		}
+		sort.Slice(snapshot, func(i, j int) bool { return eng.displayName(snapshot[i]) < eng.displayName(snapshot[j]) })
+		for _, f := range snapshot {
+			par := f.Parent()
+			if par == nil || in[par] {
+				continue
+			}
+			before := len(in)
+			for _, b := range par.Blocks {
+				for _, ins := range b.Instrs {
+					var callee ssa.Value
+					if ci, ok := ins.(ssa.CallInstruction); ok && !ci.Common().IsInvoke() {
+						callee = ci.Common().Value
+					}
+					for _, op := range ins.Operands(nil) {
+						switch x := (*op).(type) {
+						case *ssa.Function:
+							if ssa.Value(x) != callee {
+								add(x)
+							}
+						case *ssa.MakeClosure:
+							if cf, ok := x.Fn.(*ssa.Function); ok {
+								add(cf)
+							}
+						}
+					}
+				}
+			}
+			if len(in) != before {
+				changed = true
+			}
+		}
+		for len(work) > 0 {
+			f := work[len(work)-1]
+			work = work[:len(work)-1]
+			for _, b := range f.Blocks {
+				for _, ins := range b.Instrs {
+					if ci, ok := ins.(ssa.CallInstruction); ok {
+						cc := ci.Common()
+						if cc.IsInvoke() {
+							it, _ := cc.Value.Type().Underlying().(*types.Interface)
+							for _, m := range byMethod[cc.Method.Name()] {
+								if it == nil || types.Implements(m.Signature.Recv().Type(), it) {
+									add(m)
+								}
+							}
+						} else if sf := cc.StaticCallee(); sf != nil {
+							add(sf)
+						}
+					}
+					for _, op := range ins.Operands(nil) {
+						switch x := (*op).(type) {
+						case *ssa.Function:
+							add(x)
+						case *ssa.MakeClosure:
+							if cf, ok := x.Fn.(*ssa.Function); ok {
+								add(cf)
+							}
+						}
+					}
+				}
+			}
+		}
+	}
 	var out []*ssa.Function
 	for f := range in {
 		// constructors and start-up code that only runs before serving are not part of the cone even if referenced
